@@ -436,6 +436,26 @@ func TestGeneratorInvariance(t *testing.T) {
 			}
 		}
 	}
+	// thorough: every ordered pair of spec files in one invocation (state carried from one file to the next
+	// shows on some pair), spread over the shards
+	if pbt.Thorough() && !pbt.ReplayOnly() {
+		sh, n := pbt.Shard()
+		k := 0
+		for _, a := range files {
+			for _, b := range files {
+				if a == b {
+					continue
+				}
+				k++
+				if k%n != sh {
+					continue
+				}
+				if !pbt.Direct(t, InvCase{Files: []string{a, b}}, check) {
+					return
+				}
+			}
+		}
+	}
 	pbt.Run(t, gen, check)
 }
 
